@@ -158,6 +158,14 @@ class SourceIndex:
                 for sub in node.body:
                     if isinstance(sub, ast.FunctionDef):
                         self._add(mod, node.name + "." + sub.name, sub, path, node.name)
+                    elif isinstance(sub, ast.Assign) and len(sub.targets) == 1 and \
+                            isinstance(sub.targets[0], ast.Name) and isinstance(sub.value, ast.Attribute) \
+                            and isinstance(sub.value.value, ast.Name):
+                        # method alias in a class body:  __iter__ = Forward.__iter__
+                        src = "%s.%s.%s" % (mod, sub.value.value.id, sub.value.attr)
+                        if src in self.funcs:
+                            self._add(mod, node.name + "." + sub.targets[0].id, self.funcs[src].node, path,
+                                      node.name)
             elif isinstance(node, ast.Assign) and len(node.targets) == 1 and \
                     isinstance(node.targets[0], ast.Name):
                 consts[node.targets[0].id] = node.value
